@@ -82,7 +82,10 @@ func (pass *DisjunctionToType) processDisjunction(visitor *Visitor, schema *ast.
 		resolvedType, _ := schema.Resolve(disjunction.Branches[0])
 		scalarKind := resolvedType.AsScalar().ScalarKind
 
-		return ast.NewScalar(scalarKind, ast.Default(def.Default)), nil
+		scalar := ast.NewScalar(scalarKind, ast.Default(def.Default))
+		scalar.Nullable = def.Nullable
+
+		return scalar, nil
 	}
 
 	// type | otherType | something (| null)?
